@@ -6,6 +6,15 @@ pub mod pretty;
 mod config;
 mod utils;
 
+#[cfg(typstyle_verif)]
+pub mod verif {
+    use std::cell::Cell;
+    thread_local! { static CONVERSIONS: Cell<u64> = const { Cell::new(0) }; }
+    pub fn reset() { CONVERSIONS.with(|c| c.set(0)); }
+    pub fn get() -> u64 { CONVERSIONS.with(|c| c.get()) }
+    pub(crate) fn bump() { CONVERSIONS.with(|c| c.set(c.get() + 1)); }
+}
+
 pub use attr::AttrStore;
 pub use config::Config;
 use pretty::{ArenaDoc, PrettyPrinter};
